@@ -208,12 +208,18 @@ Box<ITV>::Status::ascii_load(std::istream& s) {
   if (positive) {
     set_empty_up_to_date();
   }
+  else {
+    reset_empty_up_to_date();
+  }
 
   if (!get_field(s, Implementation::Boxes::empty, positive)) {
     return false;
   }
   if (positive) {
     set_empty();
+  }
+  else {
+    reset_empty();
   }
   if (!get_field(s, universe, positive)) {
     return false;
